@@ -1,5 +1,6 @@
-(* Spec/C16Spec.v — what property C16 says, written against the CONSUMER's lexer only
-   (Model/MySqlString.v); nothing here mentions the sanitizer's state machine.
+(* Spec/C16Spec.v — what property C16 says, written against the CONSUMER's lexer
+   (Model/MySqlString.v); nothing here mentions the sanitizer's state machine (only its data types
+   [part] and [arg] and the argument formatter, in the last section).
 
    - [wf_template]: "templates with placeholders in literal positions".  A local condition on the
      MySQL tokenizer's run over the template, one clause per way a template can be lexically
@@ -9,7 +10,7 @@
      the argument.
    - [expect_error]: $0, a missing argument, an unused argument, an unsupported argument. *)
 From Coq Require Import SpecFloat.
-From GenqlV Require Import Base.Prelude Base.Fmt Model.MySqlString.
+From GenqlV Require Import Base.Prelude Base.Fmt Model.MySqlString Model.Sanitizer.
 Local Open Scope string_scope.
 Local Open Scope bool_scope.
 
@@ -217,3 +218,42 @@ Fixpoint default_ph_from (m : mstate) (t : bytes) (o : nat) : list nat :=
       if match mlabel m c rest with Default => true | _ => false end && ph_here c rest then o :: tl else tl
   end.
 Definition mysql_placeholder_offsets (t : bytes) : list nat := default_ph_from MDef t 0.
+
+(* ---------------------------------------------------------------- one literal, one token *)
+
+(* the bytes that may follow a literal without fusing with it *)
+Definition lit_follow_ok (rest : bytes) : bool :=
+  match rest with
+  | EmptyString => true
+  | String f _ => negb (is_letter f || is_digit f || is f "." || is f c_sq)
+  end.
+
+Fixpoint repeat_mode (l : mode) (n : nat) : list mode :=
+  match n with O => [] | S k => l :: repeat_mode l k end.
+
+(* modes of a literal: one token; a leading minus sign is a token of its own *)
+Definition lit_modes (inner : mode) (s : bytes) : list mode :=
+  match s with
+  | EmptyString => []
+  | String c r =>
+      if is c "-" then Default :: match r with EmptyString => [] | String _ r' => Default :: repeat_mode inner (String.length r') end
+      else Default :: repeat_mode inner (String.length r)
+  end.
+
+
+Definition inner_mode (a : arg) : mode := match a with AStr _ => InStr c_sq | _ => InWord end.
+
+
+(* what Sanitize returns when it succeeds is the parts with every placeholder replaced by fmt_arg
+   of its argument *)
+Fixpoint render (parts : list part) (args : list arg) : option bytes :=
+  match parts with
+  | [] => Some EmptyString
+  | PRaw s :: ps => match render ps args with Some r => Some (s ++ r) | None => None end
+  | PArg n :: ps =>
+      match nth_error args (Z.to_nat (wrap64 (n - 1))), render ps args with
+      | Some a, Some r => match fmt_arg a with Ok txt => Some (txt ++ r) | _ => None end
+      | _, _ => None
+      end
+  end.
+
